@@ -800,6 +800,7 @@ def check_hand_texts(chk, impl):
         except Exception as e:  # noqa
             w = ("err", type(e).__name__)
         vs = [w[1]] if w[0] == "ok" else []
+        vs.append(("l",) + tuple(("i", int(tok)) for tok in re.findall(r"-?[0-9]+", t)))
         # reals that appear in the text must be in the table: take every number-looking token
         fl = set()
         for tok in re.findall(r"-?[0-9]+(?:\.[0-9]+)?(?:e[+-]?[0-9]+)?", t):
@@ -819,7 +820,7 @@ def check_hand_texts(chk, impl):
                 f = float(tok)
             except ValueError:
                 continue
-            if f == f and abs(f) != float("inf") and ("." in tok or "e" in tok):
+            if f == f and ("." in tok or "e" in tok):
                 extra.append((fbits(f), cps(tok)))
         reqs.append("(read 0 (%s) (%s) (%s))" % (" ".join("(%d (%s))" % (b, " ".join(map(str, tt))) for b, tt in extra + fmt),
                                                  " ".join("(%d %d)" % p for p in roi), " ".join(str(ord(c)) for c in t)))
